@@ -20,6 +20,7 @@ PROP_CHECKS = {
             "C04_CompactResult", "C10_Readable"],
     "C09": ["C09_StaleAddMustFail", "C09_DirUnchanged", "C09_StaleCompactNoop", "C09_UpToDate", "C09_NextIndex", "C09_RefView", "C09_LogView",
             "C04_AddResult", "C04_StackAfterAdd"],
+    "C10": ["C10_Readable", "C10_OpenFails", "C10_ReloadFails", "C10_RefView", "C10_LogView", "C10_UpToDate"],
     "C11": ["C11_RefsFor"],
     "C12": ["C12_AcceptIffLegal", "C12_NoConflict", "C12_RefView"],
     "C16": ["C16_SeqNoLockNoTemp", "C16_SeqNoOrphanTable", "C10_Readable", "C04_CompactResult"],
@@ -27,7 +28,7 @@ PROP_CHECKS = {
 }
 
 VOL = {"quick": 300, "thorough": 6000}
-VOLP = {"C16": {"quick": 200, "thorough": 4000}}
+VOLP = {"C16": {"quick": 200, "thorough": 4000}, "C10": {"quick": 150, "thorough": 4000}}
 
 
 def seek_steps(rng, g, h=1, raw_too=True):
@@ -199,6 +200,61 @@ def gen_c13(rng, i):
     return g.history("c13-%d" % i)
 
 
+def gen_c10(rng, i):
+    """snapshots, sequentially: 2-3 handles; a handle keeps reading (full view, refs and logs) while the others add, compact
+    ranges, compact everything - also a stack of ONE table with an expiry configuration, whose result replaces a table by a
+    table with other content - and delete; an idle handle must keep showing exactly the version it loaded, and after an
+    explicit reload, a refreshing failed Add or a fresh open exactly the committed version."""
+    nh = rng.choice([2, 2, 3])
+    g = S.HistGen(rng, rng.sample(S.NAMES_PLAIN, rng.randint(1, 4)), nh=nh)
+    for h in range(1, nh + 1):
+        g.steps.append({"op": "open", "h": h})
+
+    def look(h):
+        g.steps.append({"op": "view", "h": h, "tag": "C10", "hasraw": False})
+        if rng.random() < 0.3:
+            g.steps.append({"op": "uptodate", "h": h, "tag": "C10"})
+
+    def fresh(h):      # bring h up to date: explicit reload, or an Add that fails and refreshes (then retried)
+        if rng.random() < 0.6:
+            g.steps.append({"op": "reload", "h": h})
+        else:
+            g.add(h=h, part=g.part())
+            g.add(h=h, part=g.part())
+
+    for rnd in range(rng.randint(2, 6)):
+        w = rng.randint(1, nh)
+        fresh(w)
+        x = rng.random()
+        if x < 0.35:
+            p = g.part()
+            for n in rng.sample(g.names, min(len(g.names), rng.randint(1, 2))):
+                if not any(l["n"] == n for l in p["logs"]):
+                    p["logs"].append(S.rand_log(rng, n, [], g.cfg["exact"]))
+            g.add(h=w, part=p)
+        elif x < 0.5:
+            g.steps.append({"op": "compact", "h": w, "all": True})
+        elif x < 0.85:
+            # everything into one table, then an expiry on that single table (same handle, which is up to date)
+            g.steps.append({"op": "compact", "h": w, "all": True})
+            idxmax = g.nextidx
+            e = {"time": rng.choice([0, 6, 11, 16, 30]), "min": rng.choice([0, 1, idxmax // 2, idxmax]), "max": rng.choice([0, 0, idxmax // 2, idxmax + 3])}
+            g.steps.append({"op": "compact", "h": w, "all": True, "expiry": e})
+        else:
+            g.steps.append({"op": "compact", "h": w, "first": 0, "last": 1})
+        g.steps.append({"op": "disk", "h": w, "after": "compact"})
+        for h in range(1, nh + 1):
+            look(h)                      # the writer sees the new version, the others still their own
+        r = rng.randint(1, nh)
+        fresh(r)
+        look(r)
+        if rng.random() < 0.3:
+            g.steps.append({"op": "close", "h": r})
+            g.steps.append({"op": "open", "h": r})
+            look(r)
+    return g.history("c10-%d" % i)
+
+
 def gen_c16(rng, i):
     """sequential residue: transactions that are refused (conflicts, also in the second table of an Addition), empty transactions,
     compactions whose result is empty (everything deleted, everything expired), prefix / middle compactions, several handles"""
@@ -238,7 +294,7 @@ def gen_c16(rng, i):
     return g.history("c16-%d" % i)
 
 
-GEN = {"C16": gen_c16, "C03": gen_c03, "C07": gen_c07, "C09": gen_c09, "C11": gen_c11, "C12": gen_c12, "C13": gen_c13}
+GEN = {"C16": gen_c16, "C10": gen_c10, "C03": gen_c03, "C07": gen_c07, "C09": gen_c09, "C11": gen_c11, "C12": gen_c12, "C13": gen_c13}
 
 
 def signature(check, trace, line):
